@@ -4,6 +4,7 @@ import MinterModel.BancorQ
 import MinterModel.Events
 import MinterModel.Persist
 import MinterModel.BeginBlock
+import MinterModel.Rules
 /-
   Dispatcher over every component's `Q` evaluator.  A component adds one line here.
 -/
@@ -17,5 +18,6 @@ def evalQ (fn : String) (args : List String) : Option String :=
   <|> eventsEvalQ fn args
   <|> Persist.persistEvalQ fn args
   <|> beginEvalQ fn args
+  <|> Rules.rulesEvalQ fn args
 
 end Minter
